@@ -27,6 +27,7 @@ class C02(Check):
             "lengths actually produced when every combination of array lengths and union variants is serialized. Pure function "
             "of the definition - claimed as a by-product of the reference peer. distinct = hash of type features + boundary "
             "class; non-trivial = nesting depth >= 2 or a boundary capacity / variant count")
+    RULE = RULE + "; " + 'rounds 7-8: structures with 62-200 mostly sub-byte fields and late nested composites; copies of every other type (pickle 0 / highest, deepcopy, copy) matched like the originals (copies that hit the recursion limit are known finding F20)'
     TIERS = {"quick": {"runs": 480, "budget_s": 50}, "thorough": {"runs": 30000, "budget_s": 900}}
 
     def generate(self, rng: random.Random, r: int, tier: str) -> dict:
